@@ -95,9 +95,18 @@ pub fn holds_posted(p: &Posted, a: &[i32]) -> bool {
     }
 }
 
+/// the variables defined by `new_literal_for_predicate` equal the truth value of their predicate
+pub fn link_holds(m: &Model, var: usize, a: &[i32]) -> bool {
+    match &m.vars[var] {
+        VarDecl::PredLit { pred } => (a[var] == 1) == pred.holds(a[pred.var] as i64),
+        _ => true,
+    }
+}
+
 pub fn is_solution(m: &Model, a: &[i32]) -> bool {
     a.len() == m.vars.len()
         && m.vars.iter().zip(a).all(|(d, v)| d.contains(*v as i64))
+        && (0..m.vars.len()).all(|i| link_holds(m, i, a))
         && m.cons.iter().all(|p| holds_posted(p, a))
 }
 
@@ -109,6 +118,11 @@ pub fn first_violation(m: &Model, a: &[i32]) -> Option<String> {
     for (i, (d, v)) in m.vars.iter().zip(a).enumerate() {
         if !d.contains(*v as i64) {
             return Some(format!("variable {} = {} outside declared domain {:?}", i, v, d));
+        }
+    }
+    for i in 0..m.vars.len() {
+        if !link_holds(m, i, a) {
+            return Some(format!("variable {} = {} does not equal the truth value of its defining predicate {:?}", i, a[i], m.vars[i]));
         }
     }
     for (i, p) in m.cons.iter().enumerate() {
@@ -160,7 +174,7 @@ pub fn solutions(m: &Model, leaf_limit: u64) -> Option<Vec<Asg>> {
                 return false;
             }
             a[depth] = v;
-            if at_depth[depth + 1].iter().all(|&ci| holds_posted(&m.cons[ci], a)) {
+            if link_holds(m, depth, a) && at_depth[depth + 1].iter().all(|&ci| holds_posted(&m.cons[ci], a)) {
                 if !rec(depth + 1, n, doms, at_depth, m, a, out, nodes, limit) {
                     return false;
                 }
@@ -186,7 +200,7 @@ pub fn solutions_naive(m: &Model) -> Vec<Asg> {
     }
     loop {
         let a: Asg = (0..n).map(|i| doms[i][idx[i]]).collect();
-        if m.cons.iter().all(|p| holds_posted(p, &a)) {
+        if (0..n).all(|i| link_holds(m, i, &a)) && m.cons.iter().all(|p| holds_posted(p, &a)) {
             out.push(a);
         }
         let mut k = n;
